@@ -968,6 +968,10 @@ func (e *executor) prepareExprDependencies(
 		)
 	}
 	for _, dependency := range dependencies {
+		if len(dependency) < 2 {
+			// Just the root ("$"): there is nothing in the graph to depend on.
+			return fmt.Errorf("invalid dependency %s", dependency.String())
+		}
 		dependencyKind := dependency[1]
 		switch dependencyKind {
 		case WorkflowInputKey:
